@@ -25,7 +25,8 @@ REQUIRED_PROBES = ["multiplier_sequence", "create_exit"]
 REQUIRED_FEATURES = ["bases:1", "bases:2", "base:variable-width", "base:fixed-width", "set:non-derivable",
                      "set:mixed-predecessors", "set:without-base", "cli:spec:N", "cli:spec:B", "cli:spec:<r>N",
                      "cli:spec:<r>B", "cli:spec:4DN", "cli:spec:list", "nproc>1",
-                     "history:output-path-reused"]
+                     "history:output-path-reused", "bases:mixed-value-dtypes", "cli:maxres-is-a-ladder-member",
+                     "bases:independent-2b-3b"]
 SHARD_TIMEOUT = {"quick": 1800, "thorough": 7200}
 
 
@@ -134,6 +135,7 @@ def api_case(ctx, shard, i, rng):
     nonderiv = mode == 2
     res = [m * b for m in mults]
     bases = {b: (base, base_grp)}
+    base_dtypes = {b: "int32"}
     base_uris = [base_uri]
     k2 = int([2, 3][int(rng.integers(2))])
     if two_bases and gen.bt_fixed_width(model.ref_coarsen_bt(bt, k2)) != b * k2:
@@ -143,7 +145,10 @@ def api_case(ctx, shard, i, rng):
     if two_bases:
         b2path = os.path.join(d, "base2.cool") if rng.random() < 0.5 else base
         b2grp = "/" if b2path != base else "/second"
-        cooler.coarsen_cooler(base_uri, b2path + "::" + b2grp, k2, chunksize=10**6)
+        b2dt = np.float64 if rng.random() < 0.5 else None          # the second base may use another value dtype
+        cooler.coarsen_cooler(base_uri, b2path + "::" + b2grp, k2, chunksize=10**6,
+                              dtypes={"count": b2dt} if b2dt else None)
+        base_dtypes[b * k2] = "float64" if b2dt else "int32"
         bases[b * k2] = (b2path, b2grp)
         base_uris.append(b2path + "::" + b2grp)
         res = sorted(set(res + [b * k2 * 2, b * k2 * 3]))
@@ -158,6 +163,19 @@ def api_case(ctx, shard, i, rng):
             nonderiv = False
         else:
             res.insert(int(rng.integers(len(res) + 1)), bad)
+    indep = mode == 4 and not variable and gen.bt_fixed_width(model.ref_coarsen_bt(bt, 2)) == 2 * b \
+        and gen.bt_fixed_width(model.ref_coarsen_bt(bt, 3)) == 3 * b
+    if indep:
+        # two bases that are NOT derivable from one another (2b and 3b, both coarsenings of an unsupplied
+        # finer cooler) with different value dtypes; every level must equal coarsening of the finer cooler
+        a_uri, b_uri = os.path.join(d, "baseA.cool"), os.path.join(d, "baseB.cool") + "::/deep/b"
+        cooler.coarsen_cooler(base_uri, a_uri, 2, chunksize=10**6)
+        cooler.coarsen_cooler(base_uri, b_uri, 3, chunksize=10**6, dtypes={"count": np.float64})
+        bases = {2 * b: (a_uri, "/"), 3 * b: (os.path.join(d, "baseB.cool"), "/deep/b")}
+        base_dtypes = {2 * b: "int32", 3 * b: "float64"}
+        base_uris = [a_uri, b_uri] if rng.random() < 0.5 else [b_uri, a_uri]
+        res = [b * m for m in [[4, 9], [4, 8, 9, 27], [6, 9, 4], [9, 18, 4], [4, 9, 12]][int(rng.integers(5))]]
+        nonderiv = False
     cs = int([1, 7, 10**7][int(rng.integers(3))])
     nproc = 2 if rng.random() < 0.15 else 1
     out = os.path.join(d, "out.mcool")
@@ -168,6 +186,8 @@ def api_case(ctx, shard, i, rng):
             "chunksize": cs, "nproc": nproc, "pixels": sorted((a, c_, v) for (a, c_), v in P.items())[:120]}
     with ctx.case(cid, desc) as c:
         c.feature(f"bases:{len(bases)}", "base:variable-width" if variable else "base:fixed-width")
+        if indep:
+            c.feature("bases:independent-2b-3b")
         if nproc > 1:
             c.feature("nproc>1")
         if b not in res:
@@ -198,6 +218,20 @@ def api_case(ctx, shard, i, rng):
         cooler.zoomify_cooler(base_uris if len(base_uris) > 1 else base_uris[0], out, res, chunksize=cs, nproc=nproc)
         want_res = sorted(set(res) | set(bases))
         verify_mcool(c, out, bt, P, symm, b, want_res, set(bases), bases, "api")
+        # value dtype of every level == dtype of the base it derives from (largest smaller divisor chain)
+        if len(set(base_dtypes.values())) > 1:
+            c.feature("bases:mixed-value-dtypes")
+        # (a base that is itself derivable from a smaller level is recomputed from it by zoomify_cooler;
+        #  values are those of its source - checked above - but the dtype then follows the smaller base)
+        root = {}
+        for r in want_res:
+            preds = [q for q in want_res if q < r and r % q == 0]
+            root[r] = root[max(preds)] if preds else r
+        with h5py.File(out, "r") as f:
+            for r in want_res:
+                dt = str(f[f"/resolutions/{r}/pixels/count"].dtype)
+                c.check(dt == base_dtypes[root[r]], "level-value-dtype-not-from-its-base",
+                        f"level {r} derives from base {root[r]} ({base_dtypes[root[r]]}) but stores count as {dt}")
         if P and any(r > b for r in want_res):
             c.nontrivial(repr(bt), repr(sorted(P.items())), tuple(res), tuple(sorted(bases)), cs, nproc)
         ctx.sample({"base_binsize": b, "variable": variable, "resolutions": res, "bases": sorted(bases),
@@ -237,6 +271,14 @@ def cli_case(ctx, shard, i, rng):
     else:
         b = int([10, 100][int(rng.integers(2))])
         lengths = [int(rng.integers(600, 1500)) * b * 3, int(rng.integers(100, 700)) * b]
+    if spec in ("N", "B", "<r>N", "<r>B", "default", "mixed") and rng.random() < 0.5:
+        # the inclusive upper bound of the progression: ceil(L/256) is exactly a member of the ladder
+        start = {"N": b, "B": b, "default": b, "<r>N": 2 * b, "<r>B": 3 * b, "mixed": 4 * b}[spec]
+        ladder = nice_seq(start, start * 60) if spec in ("N", "<r>N") else binary_seq(start, start * 60)
+        member = ladder[int(rng.integers(2, min(len(ladder), 5)))]
+        total = 256 * member
+        l2 = int(rng.integers(100, 700)) * b
+        lengths = [total - l2, l2]
     bt = [["chr1", gen.fixed_edges(lengths[0], b)], ["chrX", gen.fixed_edges(lengths[1], b)]]
     n = gen.bt_nbins(bt)
     symm = True
@@ -275,6 +317,8 @@ def cli_case(ctx, shard, i, rng):
     with ctx.case(cid, {"spec": spec, "arg": arg, "base_binsize": b, "lengths": lengths, "maxres": maxres,
                         "expected_levels": sorted(set(want) | {b})}) as c:
         c.feature(f"cli:spec:{spec}")
+        if maxres in want:
+            c.feature("cli:maxres-is-a-ladder-member")
         args = ["zoomify", base, "-o", out, "-c", str(int([50, 10**7][int(rng.integers(2))]))]
         if arg is not None:
             args += ["-r", arg]
